@@ -102,12 +102,15 @@ def obj_term(o):
     if o == ["?too-deep"]:
         return '(Obj KOther "?too-deep" None)'
     k = o["kind"]
+
+    def fr(f):
+        return f"(FRef {coq_str(f[0])} {coq_opt(None if f[1] is None else coq_str(f[1]))})"
     if k[0] == "func":
-        kind = f"(KFunc {coq_str(k[1])})"
+        kind = f"(KFunc {fr(k[1])})"
     elif k[0] == "method":
-        kind = f"(KMethod {coq_str(k[1])})"
+        kind = f"(KMethod {fr(k[1])})"
     elif k[0] == "property":
-        kind = f"(KProperty {coq_opt(None if k[1] is None else coq_str(k[1]))} {coq_bool(k[2])})"
+        kind = f"(KProperty {coq_opt(None if k[1] is None else fr(k[1]))} {coq_bool(k[2])})"
     elif k[0] == "class":
         kind = f"(KClass {coq_str(k[1])})"
     elif k[0] == "any":
@@ -372,13 +375,26 @@ def gen_scenarios(tier, rnd, env):
     W0, WALL, WTYPES, WBROKEN = 0, 1, nw - 2, nw - 1
     out = []
     allm = set(fx.ALL_MUTS)
-    stale = [t for t in mod_tags(env.pool) if fx.expected(t, allm) != "ok"] + ["params", "builtin"]
+    stale = [t for t in mod_tags(env.pool) if fx.expected(t, allm) != "ok"] + ["params", "lru", "moved"]
     # (a) every stale kind at every position between three valid rows
-    for i, t in enumerate(stale):
-        positions = [(i // 2) % 4] if quick else range(4)
-        for p in positions:
-            for verbose in ([bool(i % 2)] if quick else [False, True]):
-                out.append(sc(WALL, V3[:p] + [t] + V3[p:], verbose=verbose, family="every-kind-every-position"))
+    def grouped(tags, n):
+        """stores of n stale rows each, put at rotating positions (front / between / end) among the three valid rows"""
+        res = []
+        for gi in range(0, len(tags), n):
+            store, rot = list(V3), (gi // n) % 4
+            for k, t in enumerate(tags[gi:gi + n]):
+                store.insert(min((rot + 2 * k) % (len(store) + 1), len(store)), t)
+            res.append(store)
+        return res
+    if quick:       # three stale rows per store: every kind occurs, at the front, between valid rows and at the end
+        for j, store in enumerate(grouped(stale, 3)):
+            out.append(sc(WALL, store, verbose=bool(j % 2), sample_count=(j % 4 == 1), family="every-kind-every-position"))
+    else:
+        for i, t in enumerate(stale):
+            for p in range(4):
+                for verbose in (False, True):
+                    out.append(sc(WALL, V3[:p] + [t] + V3[p:], verbose=verbose, sample_count=(i % 4 == 1),
+                                  family="every-kind-every-position"))
     # (b) all subsets and orders of a 4-row alphabet (two valid... one valid, three stale kinds)
     perms = [list(p) for k in range(0, 5) for p in itertools.permutations(S4, k)]
     chosen = rnd.sample(perms, 8) if quick else perms
@@ -401,8 +417,8 @@ def gen_scenarios(tier, rnd, env):
         sc(WALL, ["meth", "kgone", "ok_a"], qualname="KGone", family="specifier"),
         sc(WALL, ["removed", "cls"], qualname="", family="specifier"),          # "fxpkg.mod:" -> empty specifier is falsy
         sc(WALL, [], family="empty-store"),
-        sc(WALL, ["builtin"], family="decodes-but-no-stub-for-module"),
-        sc(WALL, ["builtin", "removed"], sample_count=True, family="decodes-but-no-stub-for-module"),
+        sc(WALL, ["moved"], family="decodes-but-no-stub-for-module"),
+        sc(WALL, ["moved", "removed", "builtin"], sample_count=True, family="decodes-but-no-stub-for-module"),
         sc(W0, ["gone_g"], module="fxpkg.gone", family="unmutated"),
         sc(W0, ["leaf_f"], module="fxpkg.sub.leaf", family="unmutated"),
     ]
@@ -420,19 +436,21 @@ def gen_scenarios(tier, rnd, env):
         sc(WALL, ["meth", "kgone", "prop_set", "ok_a", "m_removed"], qualname="K", cmd="apply", family="apply-specifier"),
         sc(WALL, ["meth", "kgone", "ok_a"], qualname="KGone", cmd="apply", verbose=True, family="apply-specifier"),
         sc(WALL, [], cmd="apply", family="apply-empty-store"),
-        sc(WALL, ["builtin", "removed"], cmd="apply", family="apply-no-stub-for-module"),
+        sc(WALL, ["moved", "removed", "alias"], cmd="apply", family="apply-no-stub-for-module"),
         sc(W0, ["gone_g", "gone_g2"], module="fxpkg.gone", cmd="apply", family="apply-unmutated"),
         sc(W0, ["top_tf", "top_tf2"], module="fxtop", cmd="apply", sample_count=True, family="apply-unmutated"),
     ]
     # (d'') `apply` with every stale kind in one store (all of them skipped, the valid rows applied)
     out.append(sc(WALL, tags_all_interleaved(env.pool, stale), cmd="apply", verbose=True, family="apply-every-kind"))
     out.append(sc(WALL, tags_all_interleaved(env.pool, stale), cmd="apply", sample_count=True, family="apply-every-kind"))
-    # ... and each stale kind alone between valid rows (quick: every third kind, the others through `stub` above)
-    for i, t in enumerate(stale):
-        if quick and i % 3:
-            continue
-        p = (i // 2) % 4
-        out.append(sc(WALL, V3[:p] + [t] + V3[p:], cmd="apply", verbose=bool((i // 2) % 2), family="apply-every-kind"))
+    # ... and each stale kind alone between valid rows (quick: six kinds per store)
+    if quick:
+        for j, store in enumerate(grouped(list(reversed(stale)), 6)):
+            out.append(sc(WALL, store, cmd="apply", verbose=bool(j % 2), family="apply-every-kind"))
+    else:
+        for i, t in enumerate(stale):
+            p = (i // 2) % 4
+            out.append(sc(WALL, V3[:p] + [t] + V3[p:], cmd="apply", verbose=bool((i // 2) % 2), family="apply-every-kind"))
     # (d3) two stale facts in one row (class gone for a parameter that is gone too; yield class gone and the function
     # no longer a generator; return class gone and the function now a generator; non-types nested in generics), in the
     # world where every function still exists, so that nothing but the types makes these rows stale
@@ -471,6 +489,14 @@ def gen_scenarios(tier, rnd, env):
             out.append(sc(w, some, diff=True, verbose=not bool(w % 2), ignore=True, family="stub-diff"))
             out.append(sc(w, none, diff=True, verbose=bool(w % 2), family="stub-diff"))
     out.append(sc(WALL, [], diff=True, family="stub-diff"))
+    # (d6) --sample-count: the per-function trace counts must be those of the valid rows alone, whatever stale rows
+    # follow or precede a valid row (several rows per function, stale rows after each of them)
+    for j, w in enumerate((WALL, WTYPES)):
+        store = ["ok_a", "removed", "ok_b", "argcls", "nontype", "meth", "local", "base_run", "sub_run", "td", "retcls", "gen",
+                 "yieldcls", "ali_run"]
+        out.append(sc(w, store, sample_count=True, verbose=bool(j), family="sample-count"))
+        out.append(sc(w, list(reversed(store)), sample_count=True, verbose=not bool(j), cmd="apply", family="sample-count"))
+    out.append(sc(W0, ["ok_a", "local", "ok_b", "local2", "sub_run", "base_run"], sample_count=True, family="sample-count"))
     # (e) the unmutated package: the whole pool decodes except the local-scope function
     out.append(sc(W0, tags, sample_count=True, family="unmutated"))
     out.append(sc(WALL, tags, verbose=True, sample_count=True, family="whole-pool"))
